@@ -260,6 +260,46 @@ def minimise_history(prop, mod, run, sig, hs, earlier, budget_n=120):
                                           "earlier_runs_needed": len(hist), "earlier_runs_from": len(earlier)}
 
 
+def history_diff_sig(prop, run, history, hs, unmask=()):
+    """Observe `run` after `history` in one fresh interpreter and alone in another; the signature names the
+    first operation whose observation differs (None when they agree)."""
+    def ex(hist):
+        pool = ServePool(prop)
+        try:
+            return pool.execute(hs, run, unmask=unmask, with_obs=True, history=hist, timeout=300)
+        finally:
+            pool.close()
+    a, b = ex(history), ex([])
+    if a.get("harness_error") or b.get("harness_error") or a.get("obs") is None or b.get("obs") is None:
+        return None, "harness error"
+    d = first_diff(a["obs"], b["obs"])
+    if d is None:
+        return None, "no difference"
+    i, x, y = d
+    return f"{prop}/process-history/{(x or y)[1]}", {"obs_index": i, "after_earlier_runs": x, "alone_in_fresh_interpreter": y}
+
+
+def minimise_history_diff(prop, run, earlier, hs, unmask, budget_n=40):
+    sig, detail = history_diff_sig(prop, run, earlier, hs, unmask)
+    if sig is None:
+        return None, detail, run, earlier, {}
+    budget = shrink.Budget(budget_n)
+    hist = shrink.ddmin(list(earlier), lambda h: history_diff_sig(prop, run, h, hs, unmask)[0] == sig, budget) \
+        if len(earlier) > 1 else list(earlier)
+    for k in range(len(hist)):
+        ht = shrink.ddmin(hist[k]["trace"],
+                          lambda t, k=k: history_diff_sig(prop, run, hist[:k] + [dict(hist[k], trace=t)] + hist[k + 1:],
+                                                          hs, unmask)[0] == sig, budget)
+        hist[k] = dict(hist[k], trace=ht)
+    trace = shrink.ddmin(run["trace"], lambda t: history_diff_sig(prop, dict(run, trace=t), hist, hs, unmask)[0] == sig,
+                         budget)
+    small = dict(run, trace=trace)
+    sig2, detail = history_diff_sig(prop, small, hist, hs, unmask)
+    return sig, detail, small, hist, {"executions": budget.used, "earlier_runs_from": len(earlier),
+                                      "earlier_runs_needed": len(hist), "from_steps": len(run["trace"]),
+                                      "to_steps": len(trace)}
+
+
 def minimise(prop, mod, pool, run, sig, kind, hash_seeds, budget_n=400):
     budget = shrink.Budget(budget_n)
 
@@ -306,6 +346,9 @@ def replay_file(path, quiet=False):
             sig, detail = lockstep_sig(prop, pool, rp["run"], h1, h2)
             ok = sig == rp["signature"]
             return ok, {"signature": sig, "detail": detail}
+        if rp["kind"] == "history-diff":
+            sig, detail = history_diff_sig(prop, rp["run"], rp.get("history", []), rp["hash_seeds"][0])
+            return sig == rp["signature"], {"signature": sig, "detail": detail}
         r = pool.execute(rp["hash_seeds"][0], rp["run"], unmask=[rp["signature"]], history=rp.get("history", []))
         if r.get("harness_error"):
             return False, {"harness_error": r["harness_error"]}
@@ -408,6 +451,42 @@ def run_check(prop, tier):
                         lock_viol.append({"index": i, "run": run, "sig": sig, "detail": detail,
                                           "hash_seeds": [h1, h2]})
 
+        # --- process-history independence ----------------------------------
+        # The last runs of every chunk were executed after all other runs of the chunk in the same
+        # interpreter.  Executed alone in a fresh interpreter they must be observed identically: a difference
+        # means an answer depends on what the process did before - state the library keeps somewhere the
+        # simulated process start does not reset (for C10/C12/C18/C04 that is the property itself).
+        hist_viol = []
+        hist_checked = 0
+        if getattr(mod, "HISTORY_CHECK", False) and not os.environ.get("VERIF_NO_HISTORY_CHECK"):
+            hs0 = hash_seeds[0]
+            tails = [(r["start"], t) for r in reports if int(r["hash_seed"]) == hs0 for t in r.get("tail_runs", [])]
+            tails = tails[:int(cfg.get("history_check_cap", 64))]
+
+            def _fresh(item):
+                start, (i, sched, obs) = item
+                run = mod.generate(R.rng_for(seed, prop, i), dict(cfg, _index=i))
+                res = fresh_execute(prop, hs0, run, unmask=sorted(known_sigs))
+                return start, i, obs, run, res
+            with cf.ThreadPoolExecutor(max_workers=max(1, min(8, workers // 2))) as ex:
+                for start, i, obs, run, res in ex.map(_fresh, tails):
+                    hist_checked += 1
+                    if res.get("harness_error") or res.get("obs_digest") == obs:
+                        continue
+                    hist_viol.append({"index": i, "start": start, "run": run})
+            probes["history_independence_checked"] += hist_checked
+        for hv in hist_viol[:2]:
+            earlier = [mod.generate(R.rng_for(seed, prop, j), dict(cfg, _index=j)) for j in range(hv["start"], hv["index"])]
+            sig, detail, small_run, small_hist, info = minimise_history_diff(prop, hv["run"], earlier, hash_seeds[0],
+                                                                             sorted(known_sigs))
+            if sig is None:
+                print(f"HARNESS-ERROR: run {hv['index']} was observed differently after its chunk than alone, but the "
+                      f"difference did not reproduce in fresh interpreters", flush=True)
+                harness_rc = max(harness_rc, EXIT_HARNESS)
+                continue
+            violations.append({"index": hv["index"], "run": small_run, "sig": sig, "step": 0, "detail": detail,
+                               "hash_seed": hash_seeds[0], "history": small_hist, "history_diff": True, "info": info})
+
         # --- minimise and report ------------------------------------------
         rc = harness_rc
         reported = []
@@ -422,6 +501,21 @@ def run_check(prop, tier):
                 seen.add(v["sig"])
                 todo.append(("lockstep", v, v["hash_seeds"]))
         for kind, v, hss in todo[:4]:
+            if v.get("history_diff"):
+                path = write_replay(prop, seed, v["index"], hss, "history-diff", v["sig"], v["detail"], v["run"],
+                                    v["info"], history=v["history"])
+                ok, text = replay_file(path)
+                if not ok:
+                    print(f"HARNESS-ERROR: history replay {path} did not reproduce: {text}", flush=True)
+                    rc = max(rc, EXIT_HARNESS)
+                    continue
+                print(f"[icalsim] violation signature: {v['sig']}", flush=True)
+                print(f"[icalsim] detail: {json.dumps(text)[:1500]}", flush=True)
+                print(f"[icalsim] the run is observed differently after {len(v['history'])} earlier run(s) in the same "
+                      f"interpreter than alone in a fresh one ({v['info']})", flush=True)
+                print(f"VIOLATION property={prop} replay={path}", flush=True)
+                reported.append({"sig": v["sig"], "replay": path})
+                continue
             small, info = minimise(prop, mod, pool, v["run"], v["sig"], kind, hss,
                                    int(cfg.get("shrink_budget", 400)))
             history = []
@@ -521,6 +615,7 @@ def run_check(prop, tier):
                                     "covered": len([s for s in states if s.startswith("cov:")]),
                                     "total": getattr(mod, "COV_SPACE", None)},
             "lockstep_runs_compared": lock_compared,
+            "history_independence_runs_checked": hist_checked,
             "known_findings": {k: known_counts[k] for k in sorted(known_counts)},
             "observation_digest": overall,
             "real_components": ["icalendar (tree under test)", "python-dateutil", "pytz", "zoneinfo (C)",
